@@ -16,7 +16,8 @@ RULE = (
     "Cases: a daily or billing meter index at local midnight (or another fixed read hour) x an hourly or half-hourly "
     "temperature feed expressed in the meter's zone, in UTC or in another zone whose offset is a whole number of sampling "
     "intervals away x integer temperatures x NaN patterns (random cells, blocks, exactly half a day, half +- 1 reading, a whole "
-    "day) x spans containing DST days x frame (merged) or from_series entry point. Oracle: data.df.temperature[d] is the mean "
+    "day; blocks aimed at the 23/25-hour day) x spans containing DST days x frame (merged), from_series, or temperature-only reporting "
+    "data (meter None, zone given as tzinfo) entry point. Oracle: data.df.temperature[d] is the mean "
     "of the present readings with d <= t < d + 1 meter day, missing when present/total <= 0.5; with the verification hook the "
     "per-day present/absent counts equal the reference counts. Non-trivial: at least one day with 0 < missing < 50% and at "
     "least one day with >= 50% missing. Distinct = distinct case descriptions."
@@ -42,19 +43,28 @@ def cases(draw):
          "feed_tz": draw(st.sampled_from(["same", "UTC", "Asia/Tokyo", "Europe/Berlin"])),
          "entry": draw(st.sampled_from(["from_series", "from_series", "frame"])),
          "read_hour": draw(st.sampled_from([0, 0, 0, 7, 13])), "vseed": draw(st.integers(0, 2 ** 20))}
+    dst_day = None
     if tz in DST_DATES and draw(st.booleans()):
-        c["d0"] = str((pd.Timestamp(draw(st.sampled_from(DST_DATES[tz]))) - pd.Timedelta(days=draw(st.integers(0, c["nd"] - 2)))).date())
+        dst_day = draw(st.integers(0, c["nd"] - 2))
+        c["d0"] = str((pd.Timestamp(draw(st.sampled_from(DST_DATES[tz]))) - pd.Timedelta(days=dst_day)).date())
     else:
         c["d0"] = str((pd.Timestamp("2018-01-01") + pd.Timedelta(days=draw(st.integers(0, 400)))).date())
     per_day = 24 * 60 // c["step"]
     c["blocks"] = draw(st.lists(st.tuples(st.integers(0, c["nd"] - 1), st.integers(0, per_day - 1),
                                           st.sampled_from([1, 2, 3, per_day // 4, per_day // 2 - 1, per_day // 2, per_day // 2 + 1, per_day - 1, per_day, per_day + 5])),
                                 max_size=5))
+    if dst_day is not None and draw(st.booleans()):
+        # aim at the 23/25-hour day: present readings just below / at / above half of that day and of an ordinary day
+        c["blocks"].append((dst_day, draw(st.integers(0, per_day // 2 - 3)), draw(st.sampled_from([per_day // 2 - 2, per_day // 2 - 1, per_day // 2, per_day // 2 + 1]))))
     c["cells"] = draw(st.lists(st.integers(0, c["nd"] * per_day - 1), max_size=10))
     if c["family"] == "billing":
         c["read_hour"] = 0
         c["nd"] = 30 * draw(st.integers(2, 3))  # whole 30-day periods
         c["entry"] = "frame"  # the merged-frame convention of the repository's own billing tests
+    elif c["read_hour"] == 0 and draw(st.integers(0, 4)) == 0:
+        # temperature-only reporting data: no meter, the local zone is given as tzinfo
+        c["entry"] = "reporting_T_only"
+        c["elec_flag"] = draw(st.sampled_from([None, True, False]))
     return c
 
 
@@ -102,7 +112,11 @@ def judge(c, rec):
         meter = obs.rename("observed")
         Cls = em.BillingBaselineData
     with contextlib.redirect_stdout(io.StringIO()):
-        if c["entry"] == "from_series":
+        if c["entry"] == "reporting_T_only":
+            import pytz
+
+            data = em.DailyReportingData.from_series(None, feed.rename("temperature"), is_electricity_data=c.get("elec_flag"), tzinfo=pytz.timezone(tz))
+        elif c["entry"] == "from_series":
             if c["family"] == "billing":
                 meter_in = meter.dropna()
                 meter_in[days[-1]] = np.nan
@@ -134,7 +148,7 @@ def judge(c, rec):
         g = float(out.loc[a, "temperature"])
         last = k == len(mdays) - 1
         # the previous meter day is a 23/25-hour day: from_series measures the last meter period in elapsed time
-        after_dst = (last and k > 0 and c["entry"] == "from_series"
+        after_dst = (last and k > 0 and c["entry"] in ("from_series", "reporting_T_only")
                      and ((days[k] - days[k - 1]) != pd.Timedelta(days=1) or (days[k + 1] - days[k]) != pd.Timedelta(days=1)))
         kind = "full" if frac == 1 else ("partial" if frac > 0.5 else "low")
         dst_day = (b - a) != pd.Timedelta(days=1)
